@@ -240,7 +240,7 @@ class Builder:
         lines.append("string vname () { %s return \"n\"; }" % " ".join(f["vname"]))
         lines += f["fns"]
         if name == "t":
-            lines.append("void prep () { object p0; vsel = 0; %s }" % " ".join(self.prep))
+            lines.append('void prep () { object p0; vsel = 0; "/c05/master"->refill (6); %s }' % " ".join(self.prep))
         return "\n".join(lines) + "\n"
 
 
@@ -290,7 +290,7 @@ def build_case(rng, cid, budget):
 def fixed_case(cid, run_body, ops, fns=(), prep="", tail=(), inject="inject t run", vname="", extra_files=None):
     src = "\n".join([l.replace("CREATE", "").replace("GLOBALS", "") for l in HEAD] + list(fns) +
                     ['string vname () { %s return "n"; }' % vname,
-                     "void prep () { object p0; vsel = 0; %s }" % prep,
+                     'void prep () { object p0; vsel = 0; "/c05/master"->refill (6); %s }' % prep,
                      "mixed run () { %s %s return 1; }" % (DECL, run_body)]) + "\n"
     files = {"t": src}
     files.update(extra_files or {})
